@@ -378,6 +378,49 @@ func TestVerifC28Compiler(t *testing.T) {
 			}
 		}
 	}
+	// explicit identifiers: name (ID): /re/ against generated and other explicit ones, in both orders
+	ids := []string{"FOO", "X", "PLUS", "plus", "EOI", "CHAR_A", "A", "Ab"}
+	plainNames := []string{"foo", "x", "'+'", "plus", "'a'", "a", "ab"}
+	for _, id := range ids {
+		for _, other := range plainNames {
+			for _, id2 := range []string{"", id, "Y"} {
+				for order := 0; order < 2; order++ {
+					l1 := "tok1 (" + id + "): /1/\n"
+					l2 := other + ": /2/\n"
+					if id2 != "" {
+						l2 = "tok2 (" + id2 + "): /2/\n"
+					}
+					if order == 1 {
+						l1, l2 = l2, l1
+					}
+					ref2 := other
+					if id2 != "" {
+						ref2 = "tok2"
+					}
+					text := header + l1 + l2 + ":: parser\n%input Input;\nInput : tok1 " + ref2 + " ;\n"
+					ck.Case(true)
+					ok, _ := compileOK(text)
+					if !ok {
+						continue
+					}
+					g, _ := Compile(context.Background(), "col.tm", text, Params{CheckOnly: true})
+					if g == nil {
+						continue
+					}
+					seen := map[string]string{}
+					for _, s := range g.Syms {
+						if s.ID == "" {
+							continue
+						}
+						if prev, dup := seen[s.ID]; dup {
+							ck.Failf(text, "symbols %q and %q both received identifier %q and no error was reported", prev, s.Name, s.ID)
+						}
+						seen[s.ID] = s.Name
+					}
+				}
+			}
+		}
+	}
 	ck.Sample("a-b / a_b")
 	vWrite(t, nil, ck)
 }
